@@ -27,10 +27,14 @@ class SchedStall(RuntimeError):
 
 
 class ThreadSched:
-    def __init__(self, rnd: Any, prefixes: tuple[str, ...], switch_p: float) -> None:
+    def __init__(self, rnd: Any, prefixes: tuple[str, ...], switch_p: float, switch_steps: list[int] | None = None) -> None:
         self.rnd = rnd
         self.prefixes = prefixes
         self.switch_p = switch_p
+        # pre-emption bounding: instead of a coin flip at every point, switch exactly at these global step numbers (1-3 per
+        # group, drawn uniformly over the length of a call) - every "one switch at statement k" schedule is equally likely,
+        # which per-step coin flips (geometric gaps) reach only rarely for large k
+        self.switch_steps = set(switch_steps) if switch_steps is not None else None
         self.gates: list[threading.Semaphore] = []
         self.state: list[str] = []
         self.results: list[Any] = []
@@ -59,7 +63,11 @@ class ThreadSched:
         others = self._runnable(exclude=tid)
         if not others:
             return
-        if self.rnd.random() < (self.switch_p if p is None else p):
+        if self.switch_steps is not None and p is None:
+            go = self.steps in self.switch_steps
+        else:
+            go = self.rnd.random() < (self.switch_p if p is None else p)
+        if go:
             nxt = others[self.rnd.randrange(len(others))]
             self.switches.append((self.steps, tid, nxt, where))
             self.gates[nxt].release()
